@@ -121,9 +121,10 @@ def discover_pairs(ctx):
                 pairs.append((_label(ci), ci, s, d, sp, dp))
             elif own_s is not None and own_d is not None:
                 # not a combinator: compared only if both directions build local stream windows
-                def builds(fi):
-                    return any(Tracer._callee_last(c) in STREAM_CTORS for c in
-                               [n for n in walk(fi.node) if isinstance(n, ast.Call)])
+                probe = Tracer(repo, ci, None)
+
+                def builds(fi, probe=probe):
+                    return any(probe.is_stream_ctor(c) for c in [n for n in walk(fi.node) if isinstance(n, ast.Call)])
                 held = {t_.attr for m in ci.methods.values() for a_ in ast.walk(m.node)
                         if isinstance(a_, ast.Assign) and isinstance(a_.value, ast.Call)
                         and Tracer._callee_last(a_.value) in STREAM_CTORS
@@ -1390,6 +1391,174 @@ def r14(ctx):
                        in_final or restored, ctx.w(fi, st.node), "the caller's reader stays switched when the read in between raises")
 
 
+# ----------------------------------------------------------------------------- R15 / R16: lossy reads, data as syntax
+
+STRIPS = {"rstrip": ("right",), "lstrip": ("left",), "strip": ("left", "right")}
+LOSSY_SAME = {"replace", "lower", "upper", "casefold", "title", "capitalize", "swapcase", "expandtabs", "translate"}
+
+
+def _const_of_pad(node):
+    """K for  K  /  K * n  /  n * K  (a literal byte/str pad)."""
+    if isinstance(node, ast.Constant) and isinstance(node.value, (bytes, str)):
+        return node.value
+    if isinstance(node, ast.BinOp) and isinstance(node.op, ast.Mult):
+        return _const_of_pad(node.left) if _const_of_pad(node.left) is not None else _const_of_pad(node.right)
+    return None
+
+
+def _writer_pads(repo, fns: List[FuncInfo], ci) -> Set[Tuple[str, object]]:
+    """(side, constant) for every padding / terminating concatenation on the writing side."""
+    out: Set[Tuple[str, object]] = set()
+    for f in fns:
+        for n in walk(f.node, into_defs=True):
+            if isinstance(n, ast.AugAssign) and isinstance(n.op, ast.Add):
+                k = _const_of_pad(n.value)
+                if k is not None:
+                    out.add(("right", k))
+            elif isinstance(n, ast.BinOp) and isinstance(n.op, ast.Add):
+                kr, kl = _const_of_pad(n.right), _const_of_pad(n.left)
+                if kr is not None and kl is None:
+                    out.add(("right", kr))
+                if kl is not None and kr is None:
+                    out.add(("left", kl))
+            elif isinstance(n, ast.Call) and isinstance(n.func, ast.Attribute):
+                if n.func.attr in ("ljust", "rjust") and len(n.args) >= 2 and _const_of_pad(n.args[1]) is not None:
+                    out.add(("right" if n.func.attr == "ljust" else "left", _const_of_pad(n.args[1])))
+                if n.func.attr == "pack" and (_struct_attr_truncates(repo, ci, "@." + (ap(n.func.value) or "").split(".")[-1])
+                                              or (ap(n.func.value) == "struct" and n.args and _fmt_truncates(n.args[0]))):
+                    out.add(("right", b"\x00"))
+                if n.func.attr in LOSSY_SAME:
+                    out.add(("same", n.func.attr))
+    return out
+
+
+def _writer_scope(repo, s: FuncInfo) -> List[FuncInfo]:
+    from .common import class_methods_reachable, module_funcs_reachable
+    seen, out = set(), []
+    for f in class_methods_reachable(repo, s, depth=3) + module_funcs_reachable(repo, s, depth=2):
+        if f.full not in seen:
+            seen.add(f.full)
+            out.append(f)
+    return out
+
+
+def r15(ctx):
+    repo = ctx.repo
+    ctx.rule("C08.R15", "no one-sided normalisation on the read side: a strip / replace / case-fold applied to what was "
+                        "read from the stream undoes something the write side adds (padding or a terminator of the "
+                        "same bytes on the same end, or the same fold) - otherwise values ending in those bytes do not "
+                        "survive the round trip")
+    n_sites = 0
+    for label, ci, s, d, sp, dp in discover_pairs(ctx):
+        if dp is None:
+            continue
+        t = Tracer(repo, ci, "main")
+        found: Dict[str, Tuple[str, object, str]] = {}
+
+        def pre(stmt, st, fr, t=t, found=found):
+            for n, sc in _scoped_nodes(t, stmt.iter if isinstance(stmt, ast.For) else stmt, st, fr):
+                if not (isinstance(n, ast.Call) and isinstance(n.func, ast.Attribute)):
+                    continue
+                m = n.func.attr
+                if m not in STRIPS and m not in LOSSY_SAME and m != "decode":
+                    continue
+                recv = t.sym(n.func.value, sc, fr)
+                if "<stream:" not in recv:
+                    continue
+                if m in STRIPS:
+                    k = n.args[0].value if n.args and isinstance(n.args[0], ast.Constant) else None if not n.args else "?"
+                    found[f"{m}({k!r})"] = (m, k, f"{fr.mod.rel}:{n.lineno}")
+                elif m in LOSSY_SAME:
+                    found[f"{m}()"] = (m, None, f"{fr.mod.rel}:{n.lineno}")
+                else:
+                    e = kw(n, "errors") or (n.args[1] if len(n.args) > 1 else None)
+                    if isinstance(e, ast.Constant) and e.value in ("replace", "ignore", "backslashreplace"):
+                        found[f"decode(errors={e.value!r})"] = ("decode-lossy", e.value, f"{fr.mod.rel}:{n.lineno}")
+        t.pre_stmt_hooks.append(pre)
+        t.run(d, dp)
+        if not found:
+            continue
+        pads = _writer_pads(repo, _writer_scope(repo, s), ci)
+        for key, (m, k, where) in sorted(found.items()):
+            n_sites += 1
+            if m in STRIPS:
+                ok = k not in (None, "?") and all((side, k) in pads or
+                                                 any(sd == side and isinstance(pk, type(k)) and pk and set(pk) <= set(k)
+                                                     for sd, pk in pads) for side in STRIPS[m])
+                why = f"the write side pads/terminates with {sorted(map(str, pads))}"
+            elif m in LOSSY_SAME:
+                ok = ("same", m) in pads
+                why = "the write side does not apply the same fold"
+            else:
+                ok = False
+                why = "undecodable bytes are replaced/dropped"
+            ctx.ob("C08.R15", f"{label}.deserialize: {key} on stream data has a write-side counterpart", ok, where,
+                   f"{why}: a value whose encoding ends/starts with the stripped bytes reads back shortened")
+    ctx.stats["C08.R15.normalising calls on read paths"] = n_sites
+    ctx.floor("C08.R15", "normalising calls on read paths", n_sites, 2)
+
+
+RE_FUNCS = {"compile", "search", "match", "fullmatch", "split", "sub", "subn", "findall", "finditer"}
+
+
+def _pattern_is_literal_or_escaped(node, fn_node, depth=0) -> bool:
+    if depth > 6:
+        return False
+    if isinstance(node, ast.Constant):
+        return True
+    if isinstance(node, ast.Call):
+        name = ap(node.func) or ""
+        if name.endswith("re.escape") or name == "escape":
+            return True
+        if isinstance(node.func, ast.Attribute) and node.func.attr == "join" and len(node.args) == 1:
+            if not _pattern_is_literal_or_escaped(node.func.value, fn_node, depth + 1):
+                return False
+            a = node.args[0]
+            if isinstance(a, (ast.GeneratorExp, ast.ListComp)):
+                return _pattern_is_literal_or_escaped(a.elt, fn_node, depth + 1)
+            if isinstance(a, ast.Call) and ap(a.func) == "map" and a.args and (ap(a.args[0]) or "").endswith("escape"):
+                return True
+            if isinstance(a, (ast.Tuple, ast.List)):
+                return all(_pattern_is_literal_or_escaped(e, fn_node, depth + 1) for e in a.elts)
+            return False
+        return False
+    if isinstance(node, ast.JoinedStr):
+        return all(isinstance(v, ast.Constant) or (isinstance(v, ast.FormattedValue)
+                   and _pattern_is_literal_or_escaped(v.value, fn_node, depth + 1)) for v in node.values)
+    if isinstance(node, ast.BinOp) and isinstance(node.op, (ast.Add, ast.Mod)):
+        return _pattern_is_literal_or_escaped(node.left, fn_node, depth + 1) and \
+            _pattern_is_literal_or_escaped(node.right, fn_node, depth + 1)
+    if isinstance(node, ast.Tuple):
+        return all(_pattern_is_literal_or_escaped(e, fn_node, depth + 1) for e in node.elts)
+    if isinstance(node, ast.Name):
+        vals = [st.value for st in stores(fn_node, into_defs=False) if st.path == node.id and st.kind == "assign"
+                and st.value is not None]
+        return bool(vals) and all(_pattern_is_literal_or_escaped(v, fn_node, depth + 1) for v in vals)
+    return False
+
+
+def r16(ctx):
+    repo = ctx.repo
+    ctx.rule("C08.R16", "framing data is never read as syntax: a regular expression used by a combinator is a literal, "
+                        "or every piece of it that comes from the spec's data (terminators, separators) goes through "
+                        "re.escape - the write side emits those bytes literally")
+    per_mod: Dict[str, List[str]] = {m: [] for m in PAIR_MODULES}
+    n = 0
+    for ci in _spec_classes(repo):
+        for m in ci.methods.values():
+            for c in [x for x in walk(m.node, into_defs=True) if isinstance(x, ast.Call)]:
+                f_ = c.func
+                if isinstance(f_, ast.Attribute) and f_.attr in RE_FUNCS and ap(f_.value) == "re" and c.args:
+                    n += 1
+                    if not _pattern_is_literal_or_escaped(c.args[0], m.node):
+                        per_mod[ci.module.rel].append(f"{m.qual}: {norm(c)}")
+    ctx.stats["C08.R16.regex uses in combinator classes"] = n
+    for rel, bad in sorted(per_mod.items()):
+        ctx.ob("C08.R16", f"{rel.rsplit('/', 1)[-1]}: combinators build regular expressions only from literals / escaped data",
+               not bad, rel, "; ".join(bad) + ": a terminator such as b'.' or b'|' would match where the writer wrote "
+                                              "something else (or not where it wrote the terminator)")
+
+
 def run(ctx):
     r1(ctx)
     r2(ctx)
@@ -1406,6 +1575,8 @@ def run(ctx):
     r12(ctx)
     r13(ctx)
     r14(ctx)
+    r15(ctx)
+    r16(ctx)
     ctx.assume("read(write(v)) == v over generated spec trees and values is not decided statically; branch "
                "conditions of the two directions are not compared (a flipped test is a value-level fault)")
     ctx.assume("comprehension / generator events are placed where the comprehension is written; closures returned "
